@@ -26,6 +26,14 @@ func Root() string {
 	return "/verif"
 }
 
+// OutDir is where evidence and replay artefacts go (VERIF_OUT for experiments on scratch trees).
+func OutDir() string {
+	if r := os.Getenv("VERIF_OUT"); r != "" {
+		return r
+	}
+	return Root()
+}
+
 type Violation struct {
 	Sig    string `json:"sig"`
 	Msg    string `json:"msg"`
@@ -184,7 +192,7 @@ func (c *Check) Violation(sig, msg string, kind string, data any) {
 	c.viol[sig] = v
 	c.violOrder = append(c.violOrder, sig)
 	if len(c.viol) <= 40 {
-		dir := filepath.Join(Root(), "replays")
+		dir := filepath.Join(OutDir(), "replays")
 		_ = os.MkdirAll(dir, 0o755)
 		name := fmt.Sprintf("%s-%s-%03d.json", c.ID, c.Tier, len(c.viol))
 		v.Replay = filepath.Join(dir, name)
@@ -272,7 +280,7 @@ func (c *Check) Finish() {
 	}
 	c.mu.Unlock()
 	js, _ := json.MarshalIndent(ev, "", " ")
-	dir := filepath.Join(Root(), "evidence")
+	dir := filepath.Join(OutDir(), "evidence")
 	_ = os.MkdirAll(dir, 0o755)
 	if err := os.WriteFile(filepath.Join(dir, c.ID+".json"), append(js, '\n'), 0o644); err != nil {
 		fmt.Fprintln(os.Stderr, "HARNESS-ERROR: cannot write evidence:", err)
